@@ -61,6 +61,13 @@ def make(kind='m1', le=True, fmt=32, addr=8):
         units = [Unit(dp4, cu0, abbrev_key='s'), Unit(dp5, cu1, abbrev_key='t')]
         if kind in ('m1', 'mixed', 'v4'):
             units.append(Unit(dp4, tu, abbrev_key='s', in_types=True, type_die_label='struct_S', type_signature=SIG))
+        if kind == 'm1':
+            # two more type units: another signature, and an unfolded DUPLICATE of the first one (A, B, A): enumeration must not be served from a by-signature map
+            tu_b = Die(a_tu, [0x0c], [Die(a_struct, [b'T', 16], [Die(a_mem, [b'x', 0], label='mem_x'), null()], label='struct_T'), null()], label='tu_root_b')
+            tu_a2 = Die(a_tu, [0x0c], [Die(a_struct, [b'S', 8], [Die(a_mem, [b'a', 0], label='mem_a2'), Die(a_mem, [b'b', 4], label='mem_b2'), null()], label='struct_S2'), null()],
+                        label='tu_root_a2')
+            units.append(Unit(dp4, tu_b, abbrev_key='s', in_types=True, type_die_label='struct_T', type_signature=SIG ^ 0x0101010101010101))
+            units.append(Unit(dp4, tu_a2, abbrev_key='s', in_types=True, type_die_label='struct_S2', type_signature=SIG))
         if kind == 'v4':
             units = [units[0], units[2]]
         elif kind == 'v5':
